@@ -1073,3 +1073,5 @@ META = {
 }
 
 META['explanation'] += ' ' + 'Further: load_save restores verbatim; the trainer stamps every ruleset with a fresh uuid4/uuid1 (a name-based uuid defeats the gate); no list of the loaded grammar is ordered by a set; exact-float discipline; restore runs under the 10**6 frame bound and insert_queue pushes unconditionally.'
+
+META['explanation'] += ' ' + 'Round 13: every _find_prob call of the queue / restore code passes the base probability; ruleset_info is read only under keys the loader writes.'
